@@ -218,6 +218,51 @@ func runC04(c *Ctx) {
 			}
 		}
 	}
+	// the example *inputs* as shipped (they still carry legacy forms that calculation
+	// migrates), each also with its first line repeated under every other rate key of
+	// its tax category, before and after the original lines
+	for _, src := range corpus.Sources() {
+		inputs = append(inputs, c04input{Origin: src.Rel, Data: src.JSON, Class: "source"})
+		n, err := jmut.Parse(src.JSON)
+		if err != nil || n.Get("lines") == nil || len(n.Get("lines").A) == 0 {
+			continue
+		}
+		first := n.Get("lines").A[0]
+		tx := first.Get("taxes")
+		if first.K != jmut.Obj || tx == nil || len(tx.A) == 0 || tx.A[0].K != jmut.Obj {
+			continue
+		}
+		regime := str(n, "$regime")
+		if regime == "" {
+			regime = str(n, "supplier", "tax_id", "country")
+		}
+		reg := w.defs.Regimes[regime]
+		if reg == nil {
+			continue
+		}
+		cat := reg.CategoryDef(str(tx.A[0], "cat"))
+		if cat == nil {
+			continue
+		}
+		for ri, r := range cat.Rates {
+			if r.Key == str(tx.A[0], "rate") {
+				continue
+			}
+			for _, after := range []bool{true, false} {
+				d := n.Clone()
+				cp := d.Get("lines").A[0].Clone()
+				cp.Get("taxes").A[0].Set("rate", jmut.S(r.Key))
+				cp.Get("taxes").A[0].Del("percent")
+				cp.Del("i")
+				if after {
+					d.Get("lines").A = append(d.Get("lines").A, cp)
+				} else {
+					d.Get("lines").A = append([]*jmut.Node{cp}, d.Get("lines").A...)
+				}
+				inputs = append(inputs, c04input{Origin: fmt.Sprintf("%s#line-with-rate-%d-%v", src.Rel, ri, after), Data: d.Bytes(), Class: "source-variant"})
+			}
+		}
+	}
 	inputs = append(inputs, c04targeted()...)
 	// field-level variations of corpus documents (kept when they still calculate)
 	{
